@@ -245,15 +245,30 @@ func (v *Verifier) propCheck(prop, tier string, seed int, update bool, t0 time.T
 			viols = append(viols, viol{r.Name, why, r.Worst})
 		}
 	}
+	erroredSeen := map[string]bool{}
 	for _, n := range bl.Properties[prop] {
-		if _, ok := resByName[n]; !ok {
-			why := "obligation of the delivered tree is no longer generated"
-			for _, e := range engineErrs {
-				if strings.Contains(e, strings.SplitN(n, "#", 2)[0]+":") {
-					why = "function left the verifiable subset: " + e
-				}
+		if _, ok := resByName[n]; ok {
+			continue
+		}
+		parts := strings.SplitN(n, "#", 2)
+		fn, kind := parts[0], ""
+		if len(parts) > 1 {
+			kind = strings.SplitN(parts[1], ":", 2)[0]
+		}
+		r, inCone := runs[fn]
+		if !inCone {
+			continue // the function is no longer reachable from the property's roots: its obligations are moot
+		}
+		if r.Err != nil {
+			if !erroredSeen[fn] {
+				erroredSeen[fn] = true
+				viols = append(viols, viol{fn + "#*", "function left the verifiable subset, none of its obligations can be discharged: " + r.Err.Error(), nil})
 			}
-			viols = append(viols, viol{n, why, nil})
+			continue
+		}
+		switch kind {
+		case "post", "derive", "loop", "frame", "prelemma", "panic":
+			viols = append(viols, viol{n, "obligation of the delivered tree is no longer generated", nil})
 		}
 	}
 	if len(bl.Properties[prop]) == 0 && len(engineErrs) > 0 {
